@@ -177,7 +177,7 @@ def generate(seed, tier):
                 op["via"] = "graph"
             if op.get("g") is None and op["k"] == "remove":
                 op["g"] = 0
-    return {"property": ID, "config": {"two": two, "graphs": graphs, "init": init, "base": "simple" if simple else "memory", "veto_mode": veto_mode}, "ops": ops}
+    return {"property": ID, "config": {"two": two, "graphs": graphs, "init": init, "base": "simple" if simple else "memory", "veto_mode": veto_mode, "announce": veto_mode and g.chance(0.5)}, "ops": ops}
 
 
 def _tt(spec):
@@ -212,6 +212,17 @@ def execute(trace, ctx):
         base = SimpleMemory()
     else:
         base = Memory()
+        if cfg.get("announce"):
+            # a store that announces removals the way Memory announces additions: event first, then the indexes
+            from rdflib.store import Store
+
+            class AnnouncingMemory(Memory):
+                def remove(self, triple_pattern, context=None):
+                    Store.remove(self, triple_pattern, context)
+                    super().remove(triple_pattern, context)
+
+            base = AnnouncingMemory()
+            ctx.probe("base-store-announces-removals")
     model = set()  # (skey s, skey p, skey o, skey g)
     for s, p, o, gi in cfg["init"]:
         Graph(base, T(graphs[gi])).add((T(s), T(p), T(o)))
